@@ -70,6 +70,8 @@ def cases(draw, closed_only, allow_verify):
         else:
             case["loose"] = [*case["loose"], big]
             case["request"] = sorted({*case["request"], ntrees + len(case["loose"]) - 1})
+    # requested ids carry obj_name labels (as DVC's outputs produce them)
+    case["named"] = draw(st.booleans())
     # kind of the injected upload failure (OSError subclass is chosen by errno)
     case["fail_errno"] = draw(st.sampled_from(["EIO", "EIO", "ENOENT", "EACCES", "ENOSPC"]))
     # placement by hard link instead of copy (cache type hardlink); applies to hashfile.transfer() only
@@ -249,10 +251,13 @@ def execute(case, ctx, d, monitor_closure=True):  # noqa: C901, PLR0912, PLR0915
         src = stagings[tops.index(req_tops[0])]
         o.src = src
     req = set()
-    for t in req_tops:
-        req.add(HashInfo("md5", t["oid"]))
+    named = bool(case.get("named"))
+    for j, t in enumerate(req_tops):
+        # DVC hands transfer() ids that carry a presentation-only path label (obj_name)
+        req.add(HashInfo("md5", t["oid"], obj_name=f"out{j}") if named else HashInfo("md5", t["oid"]))
         if t["isdir"] and case["form"] == "closed":
-            req.update(HashInfo("md5", f) for f in t["files"])
+            for rel, f in sorted(t["manifest"].items()):
+                req.add(HashInfo("md5", f, obj_name=f"out{j}/{rel}") if named else HashInfo("md5", f))
     shallow = case["form"] != "expand"
     o.requested = {h.value for h in req}
     o.requested_expanded = set(o.requested)
@@ -406,6 +411,8 @@ def classes_of(case, o):
     cl = [f"src={case['src_kind']}", f"dst={case['dst_kind']}", f"form={case['form']}"]
     if case["index"]:
         cl.append("dest-index")
+    if case.get("named") and not o.via_push:
+        cl.append("request-ids-carry-obj_name")
     if case.get("hardlink") and not o.via_push:
         cl.append("hardlink")
     if any(len(v) >= 2**20 for v in o.bytes.values()):
